@@ -276,6 +276,7 @@ class XMIResource(Resource):
 
     def _decode_ereferences(self):
         opposite = []
+        bidirectional = []
         for eobject, erefs in self._later:
             for ref, value in erefs:
                 name = ref._name
@@ -286,6 +287,7 @@ class XMIResource(Resource):
                     values = (self.normalize(x) for x in value.split())
                 else:
                     values = (value,)
+                document_order = []
                 for value in values:
                     if not value:  # BA: Skip empty references
                         continue
@@ -296,8 +298,28 @@ class XMIResource(Resource):
                         resolved_value = resolved_value.eClass
                     if ref.many:
                         eobject.__getattribute__(name).append(resolved_value)
+                        document_order.append(resolved_value)
                     else:
                         eobject.__setattr__(name, resolved_value)
+                if ref.many and ref.eOpposite:
+                    bidirectional.append((eobject, name, document_order))
+
+        # the other end may have filled a collection before its own turn came:
+        # put the elements back in the order the document gives them
+        for eobject, name, document_order in bidirectional:
+            collection = eobject.__getattribute__(name)
+            if len(document_order) != len(collection) \
+                    or all(x is y for x, y in zip(collection, document_order)) \
+                    or {id(x) for x in collection} \
+                    != {id(x) for x in document_order}:
+                continue
+            if hasattr(collection, 'map'):
+                collection.items[:] = document_order
+                collection.map.clear()
+                collection.map.update((x, i)
+                                      for i, x in enumerate(document_order))
+            else:
+                list.__setitem__(collection, slice(None), document_order)
 
         for eobject, ref, value in opposite:
             resolved_value = self._resolve_nonhref(value)
